@@ -159,6 +159,9 @@ def tasks(tier, seed):
         ts = [t for t in ts if not (t["first"] == "two_fragments" and t["second"] == "two_fragments")]
         # the event-loop change in the quick tier: only with the light first kinds
         ts += [t for t in H.make_tasks(PROP, cfgs, ["drop", "answer", "peer_closes", "send_error"], PLANS[1:])]
+    # timeouts that are not a whole number of seconds (light alphabet)
+    frac = [{"transport": "udp", "keep_alive": False, "T": 1.5, "retries": 1}, {"transport": "tcp", "keep_alive": True, "T": 2.5, "retries": 1}]
+    ts += H.make_tasks(PROP, frac, ["drop", "answer", "exception"], PLANS[:1])
     ents = [("connect", "ET"), ("connect", "ES"), ("connect", "DT"), ("discover", None), ("search", None),
             ("discover", "ET"), ("discover", "ES"), ("discover", "DT")]
     ts += [{"name": f"entry-{e}-{f}", "entry": e, "family": f} for e, f in ents]
@@ -185,7 +188,7 @@ def evidence_meta(tier):
                 "(timeout, retries)",
         "bounds": {"first_request": "C04 alphabet and delays, retries+1 <= 2 transmissions (quick: without dup_fragment and without the pair two_fragments>two_fragments)", "second_request": "silent peer",
                    "entry_points": "connect(ET/ES/DT), discover, search_inverters; timeout 1..3, retries 0..2",
-                   "configs": "udp/tcp x keep-alive on/off x T=2 (quick) + T=3 (thorough)"},
+                   "configs": "udp/tcp x keep-alive on/off x T=2 (quick) + T=3 (thorough); T=1.5 (udp) and 2.5 (tcp keep-alive) with the alphabet drop/answer/exception"},
         "outside": ["histories of more than two requests (the follow-up request starts from whatever state the first left: "
                     "every outcome class of the first request is explored)", "retries > 2"],
         "assumptions": ["environment model of symx/vworld.py"],
